@@ -6,6 +6,7 @@ import (
 	"bytes"
 	"context"
 	"crypto"
+	"crypto/rsa"
 	"encoding/json"
 	"errors"
 	"fmt"
@@ -90,11 +91,24 @@ func loadKnown() {
 		}
 	}
 	add(&knownBlob{content: junkBlob, maxKind: 0, name: "junk"})
+	// keys of other algorithms (fixed, generated at start-up): indices 4..
+	if rp, ok := knownList[0].pub.PublicKey.(*rsa.PublicKey); ok {
+		gk, err := generatedKeys(rp)
+		if err != nil {
+			knownErr = err
+			return
+		}
+		for _, k := range gk {
+			add(k)
+		}
+	} else {
+		knownErr = errors.New("c16: test key 1 is not an RSA key")
+	}
 }
 
 func knownBlobs() (map[string]*knownBlob, []*knownBlob, error) {
 	knownOnce.Do(loadKnown)
-	if knownErr == nil && len(knownList) < 4 {
+	if knownErr == nil && len(knownList) < 10 {
 		knownErr = errors.New("c16: test key rings incomplete")
 	}
 	return known, knownList, knownErr
@@ -539,7 +553,11 @@ func (wd *world) exec(w []string) string {
 
 // armoredDetachSign is what Sign asks the library for: the armored detached signature of t.
 func armoredDetachSign(ent *openpgp.Entity, t string, at time.Time) (string, error) {
+	return armoredDetachSignCfg(ent, t, &packet.Config{Time: func() time.Time { return at }, Rand: constReader(0x5a)})
+}
+
+func armoredDetachSignCfg(ent *openpgp.Entity, t string, cfg *packet.Config) (string, error) {
 	var buf bytes.Buffer
-	err := openpgp.ArmoredDetachSign(&buf, ent, strings.NewReader(t), &packet.Config{Time: func() time.Time { return at }})
+	err := openpgp.ArmoredDetachSign(&buf, ent, strings.NewReader(t), cfg)
 	return buf.String(), err
 }
